@@ -19,7 +19,7 @@ const MODS: [&str; 4] = ["A", "B", "C", "D"];
 /// two different member signatures, importers whose well-typedness depends on that signature,
 /// cycles, self-imports, imports from a module that only exists after a rename (D), local type
 /// errors, syntax errors, empty files.
-const TEXTS: [&str; 18] = [
+const TEXTS: [&str; 19] = [
   /* 0 */ "class X(val v: int) {\n  function mk(): X = X.init(1)\n  function f(): int = 1\n}\n",
   /* 1 */ "class X(val v: int) {\n  function mk(): X = X.init(1)\n  function f(): bool = true\n}\n",
   /* 2 */
@@ -50,9 +50,12 @@ const TEXTS: [&str; 18] = [
   "\n\nclass X(val v: int) {\n  function mk(): X = X.init(1)\n\n  function f(): bool =\n    true\n}\n",
   /* 17 */
   "// moved\nclass X(val v: int) {\n  // moved\n  function mk(): X = X.init(1)\n  function f(): int = 1\n}\n",
+  // a dependant whose diagnostic quotes a location inside the imported module (the declared type of
+  // the constructor parameter): its reference locations and code frames follow the layout of A
+  /* 18 */ "import { X } from A\nclass Y {\n  function g(): X = X.init(\"text\")\n  function h(): X = X.mk(1)\n}\n",
 ];
 
-const INITS: [&[(u8, u8)]; 10] = [
+const INITS: [&[(u8, u8)]; 11] = [
   &[],
   &[(0, 0), (1, 2)],
   &[(0, 1), (1, 2)],
@@ -63,6 +66,7 @@ const INITS: [&[(u8, u8)]; 10] = [
   &[(0, 0), (1, 2), (2, 12)],
   &[(0, 13), (2, 5)],
   &[(0, 13), (1, 14)],
+  &[(0, 1), (1, 18)],
 ];
 const UPDATE2: [[(u8, u8); 2]; 4] =
   [[(0, 1), (1, 3)], [(0, 0), (1, 2)], [(0, 8), (2, 2)], [(1, 0), (2, 10)]];
